@@ -120,6 +120,48 @@ Fixpoint feed_loop (l : list member) (room count : N) (acc : bytes) : M (N * byt
       else feed_loop t (room - len b) (count + 1) (acc ++ b)
   end.
 
+(* Foca::send_message, the member / update section (after the header).
+   Returns the bytes and the room left in the Limit wrapper. *)
+Definition send_body (dst : Id) (msg : message Id) (maxp room idx : N) : M (bytes * N) :=
+  if needs_piggyback msg && (2 <? room) then
+    let room2 := room - 2 in
+    if piggyback_only_active msg then
+      cap <- estimate_feed_capacity maxp room2 ;;
+      chosen <- choose_active cap (fun i => negb (id_eqb i dst)) ;;
+      cb <- feed_loop (rev chosen) room2 0 [] ;;
+      let '(cnt, fb, rleft) := cb in
+      ret (u16_be cnt ++ fb, rleft)
+    else
+      f <- get ;;
+      match updates f with
+      | [] => ret (u16_be 0, room2)
+      | _ =>
+          hint <- ask (RTie false idx) ;;
+          let '(w, n, kept, p) := fill_gen Addr 0 hint (updates f) room2 u16_max in
+          match p with
+          | Some s => panic s
+          | None => modify (fun f => set_updates f kept) ;;;
+                    ret (u16_be n ++ w, room2 - len w)
+          end
+      end
+  else ret ([], room).
+
+(* Foca::send_message, the custom broadcast tail *)
+Definition send_customs (dst : Id) (msg : message Id) (room3 idx : N) : M bytes :=
+  f <- get ;;
+  if (0 <? room3) && allow_custom_broadcasts msg && h_should_add (hst f) dst then
+    match customs f with
+    | [] => ret []
+    | _ =>
+        hint <- ask (RTie true idx) ;;
+        let '(w, n, kept, p) := fill_gen hkey 2 hint (customs f) room3 usize_max in
+        match p with
+        | Some s => panic s
+        | None => modify (fun f => set_customs f kept) ;;; ret w
+        end
+    end
+  else ret [].
+
 (* Foca::send_message *)
 Definition send_message (dst : Id) (msg : message Id) : M unit :=
   f <- get ;;
@@ -129,41 +171,9 @@ Definition send_message (dst : Id) (msg : message Id) : M unit :=
   if maxp <? len hb then fail EEncode else
   let room := maxp - len hb in
   idx <- num_sends ;;
-  body <- (if needs_piggyback msg && (2 <? room) then
-             let room2 := room - 2 in
-             if piggyback_only_active msg then
-               cap <- estimate_feed_capacity maxp room2 ;;
-               chosen <- choose_active cap (fun i => negb (id_eqb i dst)) ;;
-               cb <- feed_loop (rev chosen) room2 0 [] ;;
-               let '(cnt, fb, rleft) := cb in
-               ret (u16_be cnt ++ fb, rleft)
-             else
-               match updates f with
-               | [] => ret (u16_be 0, room2)
-               | _ =>
-                   hint <- ask (RTie false idx) ;;
-                   let '(w, n, kept, p) := fill_gen Addr 0 hint (updates f) room2 u16_max in
-                   match p with
-                   | Some s => panic s
-                   | None => modify (fun f => set_updates f kept) ;;;
-                             ret (u16_be n ++ w, room2 - len w)
-                   end
-               end
-           else ret ([], room)) ;;
-  let '(body, room3) := body in
-  f <- get ;;
-  cust <- (if (0 <? room3) && allow_custom_broadcasts msg && h_should_add (hst f) dst then
-             match customs f with
-             | [] => ret []
-             | _ =>
-                 hint <- ask (RTie true idx) ;;
-                 let '(w, n, kept, p) := fill_gen hkey 2 hint (customs f) room3 usize_max in
-                 match p with
-                 | Some s => panic s
-                 | None => modify (fun f => set_customs f kept) ;;; ret w
-                 end
-             end
-           else ret []) ;;
+  br <- send_body dst msg maxp room idx ;;
+  let '(body, room3) := br in
+  cust <- send_customs dst msg room3 idx ;;
   emit (Send dst (hb ++ body ++ cust)).
 
 (* Foca::choose_and_send *)
